@@ -115,6 +115,27 @@ func (p *SolverPool) Solve(query string, timeout time.Duration, needTwo bool, wa
 	file := filepath.Join(p.workDir, key[:24]+".smt2")
 	os.WriteFile(file, []byte(query), 0o644)
 	defer os.Remove(file)
+	// stage 1 (quick tier): most obligations are decided by z3 5.1 in well under a second; only the others are raced
+	if !needTwo {
+		pre := 4 * time.Second
+		if timeout < pre {
+			pre = timeout
+		}
+		r := runOne(context.Background(), solvers[0], file, pre)
+		p.mu.Lock()
+		p.totalT += r.Time
+		p.mu.Unlock()
+		if r.Status == "unsat" || r.Status == "sat" {
+			if r.Status == "unsat" && p.useCache {
+				os.WriteFile(cpath, []byte("unsat\n"+r.Solver+"\n"), 0o644)
+			}
+			p.mu.Lock()
+			p.queries++
+			p.wins[r.Solver]++
+			p.mu.Unlock()
+			return r
+		}
+	}
 	ctx, cancel := context.WithCancel(context.Background())
 	defer cancel()
 	ch := make(chan SolverResult, len(solvers))
